@@ -92,8 +92,10 @@ CopyOp(src, dst) == /\ Bound /\ live[src] /\ src # dst /\ Put4(dst, reg[src], TR
 \* through a Dataset: ds = Dataset(); ds['v'] = reg[src]; reg[dst] = ds['v']
 ViaDataset(src, dst) == /\ Bound /\ live[src] /\ Put4(dst, reg[src], FALSE, grp[src]) /\ Record("via_dataset", Args(src, dst, "", <<>>))
 \* align(sort=True) of two registers; both are replaced by their aligned versions (order fixed by sort)
+NoEmptyAxis(a) == \A i \in 1..NDim(a) : Len(a.labs[i]) > 0
 AlignSorted(r1, r2, join) ==
   /\ Bound /\ live[r1] /\ live[r2] /\ r1 # r2
+  /\ NoEmptyAxis(reg[r1]) /\ NoEmptyAxis(reg[r2])       \* outer alignment from an empty axis is known finding K01 (a C06 matter)
   /\ LET al == Align(<<reg[r1], reg[r2]>>, join, TRUE, <<>>)
      IN /\ reg' = [reg EXCEPT ![r1] = al.arrs[1], ![r2] = al.arrs[2]] /\ UNCHANGED live
         /\ own' = [own EXCEPT ![r1] = FALSE, ![r2] = FALSE] /\ warm' = [warm EXCEPT ![r1] = FALSE, ![r2] = FALSE]
